@@ -153,7 +153,7 @@ def worker(kp, job):
 def run(chk):
     b = core.standard_build(chk)
     model = core.Model() if b.modelrun_ok else None
-    full = chk.tier == 'thorough' or bool(b.drift) or not b.proof_ok
+    full = chk.tier == 'thorough' or bool(b.drift) or not b.proof_ok or not b.modelrun_ok
     n = core.budget(chk, full, 90, 480)
     chk.rule = ('generated **kern documents, half in the claimed core class (signatures before the first measure, splits '
                 're-joined before the next barline; some with a spine that ends before the others), the rest with mid-score signature changes, splits left open across barlines, '
